@@ -339,7 +339,7 @@ Section Step.
         split; [exact A|]. split; [left; exact B|exact C]. }
       fold given.
       destruct (Z.ltb_spec CALL_DEPTH (v_depth env)) as [Hdeep|Hshallow]; [apply (Hnext false given 0); lia|].
-      destruct (o_plan orc opc env fr1 w) as [[keep ok rsz|pcost ok rsz|code ro insz|] w'].
+      destruct (o_plan orc opc env fr1 w) as [[keep ok rsz|pcost ok rsz|code ro insz| |] w']; [| | |apply (Hnext false 0 0); lia|].
       + apply (Hnext ok (if keep then given else 0) rsz). destruct keep; lia.
       + destruct ((given <? pcost) || (pcost <? 0)) eqn:Ec; [apply (Hnext false 0 0); lia|].
         apply orb_false_elim in Ec. destruct Ec as [E1 E2]. apply Z.ltb_ge in E1. apply Z.ltb_ge in E2.
@@ -373,8 +373,11 @@ Section Step.
       { intros retgas rsz w' Hr. destruct (Hafter 0 retgas (Z.max 0 rsz) ltac:(lia) Hr) as (A & B & C). cbn [step_post].
         split; [exact A|]. split; [left; exact B|exact C]. }
       fold given.
-      destruct (Z.ltb_spec CALL_DEPTH (v_depth env)) as [Hdeep|Hshallow]; [apply (Hnext given 0); lia|].
-      destruct (o_plan orc opc env fr1 w) as [[keep ok rsz|pcost ok rsz|code ro insz|] w'].
+      destruct (o_plan orc opc env fr1 w) as [pl w'].
+      assert (Hrefused : step_post env fr (S1Next (mkF (f_pc fr1 + 1) (0 :: rest) (f_mlen fr1) (f_fee fr1) (f_gas fr1 - given + 0) (Z.max 0 0)) w'))
+        by (apply (Hnext 0 0); lia).
+      destruct pl as [keep ok rsz|pcost ok rsz|code ro insz| |]; [| | |exact Hrefused|];
+        (destruct (Z.ltb_spec CALL_DEPTH (v_depth env)) as [Hdeep|Hshallow]; [apply (Hnext given 0); lia|]).
       + apply (Hnext (if keep then given else 0) 0). destruct keep; lia.
       + apply (Hnext 0 0). lia.
       + cbn [step_post]. split; [exact Hshallow|]. split; [reflexivity|]. split; [|split; [reflexivity|]].
